@@ -131,7 +131,7 @@ def concretise(beh, seed):
     # milliseconds (several segments ending on the same ms, an expired and a surviving segment starting on the same ms);
     # in "spread" mode every segment draws its own offsets.  A record with multiplicity m > 1 always means m segments
     # with identical [lo, hi] in one index.
-    tied = rnd.random() < 0.6 or any(s.get("m", 1) > 1 for s in beh["segs"])
+    tied = rnd.random() < 0.6 or any(s.get("m", 1) > 1 for s in beh["segs"]) or bool(beh.get("ties"))
     c["tied"] = tied
     if tied:
         c["two_indexes"] = c["two_indexes"] and rnd.random() < 0.3
@@ -818,7 +818,9 @@ def judge(beh, res, ref_final):
     else:
         for a in sorted(state):
             for b in sorted(state):
-                if state[a] == "gone" and state[b] != "gone" and segs[a - 1]["hi"] > segs[b - 1]["hi"]:
+                # "kept" = its data is still there; a half-deleted older segment (directory already removed by the interrupted
+                # pass, metadata left behind) is reported under its own key above, it is not a segment that was kept
+                if state[a] == "gone" and state[b] != "gone" and o["segs"][b]["files"] and segs[a - 1]["hi"] > segs[b - 1]["hi"]:
                     out.append(("C14:%s:newer-%s-segment-deleted-older-%s-segment-kept%s" % (
                         pn, segs[a - 1]["kind"], segs[b - 1]["kind"], suffix),
                         "segment %d (%s, latest rank %d) deleted while older segment %d (%s, latest rank %d) survives" % (
@@ -841,7 +843,14 @@ def judge(beh, res, ref_final):
             obs_key(res["after_repeat"]), obs_key(res["after_restart"]))))
     if crashed and ref_final is not None and "final" in ref_final:
         r0 = {i: st for i, st in sorted(_states(ref_final["final"]).items())}
-        if r0 != state and "mixed" not in state.values():
+        same = r0 == state
+        if beh.get("ties"):
+            # segments whose latest times tie are interchangeable for the scan (sort.Slice may order them either way, in every
+            # run): the outcome is compared up to that equivalence
+            def cls(stt):
+                return sorted((segs[int(i) - 1]["hi"], segs[int(i) - 1]["kind"], segs[int(i) - 1]["w"], v) for i, v in stt.items())
+            same = cls(r0) == cls(state)
+        if not same and "mixed" not in state.values():
             out.append(("C14:%s:interrupt+repeat-outcome-differs-from-uninterrupted" % pn,
                         "uninterrupted pass: %s; interrupted after %s and repeated: %s" % (
                             r0, [st["a"] + str(st.get("s", "")) for st in beh["steps"][1:_cut(beh) + 1]], state)))
@@ -940,13 +949,21 @@ def run(chk):
             ("all passes, intended design (must hold)", "MC_Retention_intended.cfg", quick),
             ("as coded: volume order", "MC_Retention_ascoded_order.cfg", False),
             ("as coded: inode pass interrupted", "MC_Retention_ascoded_inode.cfg", False),
-            ("as coded: empty-PQ meta", "MC_Retention_ascoded_pq.cfg", False)]
+            ("as coded: empty-PQ meta", "MC_Retention_ascoded_pq.cfg", False),
+            ("model mutant: per-table list entry located by binary search on the latest time (ties)", "MC_Retention_mut_bsearch.cfg", False)]
     if not quick:
         jobs.insert(2, ("volume + inode passes, intended design, 4 segments (must hold)", "MC_Retention_intended_deep.cfg", False))
 
     def model_results(results):
         for (name, cfg, cov), r in zip(jobs, results):
-            if cfg.startswith("MC_Retention_ascoded"):
+            if cfg.startswith("MC_Retention_mut"):
+                if r.error and not r.violated:
+                    raise vlib.Infra("%s: TLC failed (%s)\n%s" % (cfg, r.error, r.out[-2000:]))
+                if "Consistent" not in r.violated:
+                    raise vlib.Infra("model sensitivity lost: %s no longer violates Consistent (ties in the segment sets gone?)" % cfg)
+                chk.add_tlc(cfg, r, name + "; must violate Consistent: %s" % r.violated)
+                chk.cov.setdefault("model_sensitivity", {})[cfg] = r.violated
+            elif cfg.startswith("MC_Retention_ascoded"):
                 if r.error:
                     raise vlib.Infra("%s: TLC failed (%s)\n%s" % (cfg, r.error, r.out[-2000:]))
                 chk.add_tlc(cfg, r, name + "; expected to violate: %s" % r.violated)
@@ -960,7 +977,8 @@ def run(chk):
 
     # ---- behaviours
     gens = [("time", "Gen_Retention_time.cfg" if quick else "Gen_Retention_time_deep.cfg"),
-            ("pq", "Gen_Retention_pq.cfg"), ("volume", "Gen_Retention_volume.cfg"), ("inode", "Gen_Retention_inode.cfg")]
+            ("pq", "Gen_Retention_pq.cfg"), ("volume", "Gen_Retention_volume.cfg"), ("vties", "Gen_Retention_volume_ties.cfg"),
+            ("inode", "Gen_Retention_inode.cfg")]
     gres = vlib.pmap(lambda g: vlib.tlc_generate("Gen_Retention", g[1], timeout=1500), gens, workers=2)
     behs = {}
     for (name, cfg), (bs, r) in zip(gens, gres):
@@ -970,6 +988,8 @@ def run(chk):
         behs[name] = bs
     for b in behs["pq"]:
         b["pq_scenario"] = True
+    for b in behs["vties"]:
+        b["ties"] = True      # sort.Slice may order tied entries either way: several scan orders per scenario
     ex = cf.ThreadPoolExecutor(max_workers=2)
     futs = [ex.submit(tlc, j) for j in jobs]
     try:
@@ -1018,6 +1038,10 @@ def replay_all(chk, quick, rnd, binary, mount_ok, behs):
     plan += pick({k: v for k, v in g_vol.items() if not has_met(v[0])}, rnd, 3 if quick else 24, 1 if quick else 3)
     plan += pick({k: v for k, v in g_vol.items() if has_met(v[0])}, rnd, 3 if quick else 24, 1 if quick else 3,
                  prefer=lambda b: not b["ok"]["oldest"])
+    # volume pass over log segments whose latest times tie (a victim and a survivor / two victims end on the same ms)
+    g_vt = {k: v for k, v in group(behs["vties"]).items()
+            if len(set(s["hi"] for s in v[0]["segs"])) < len(v[0]["segs"]) and len(v[0]["segs"]) > 1}
+    plan += pick(g_vt, rnd, 2 if quick else 16, 1 if quick else 3, prefer=lambda b: len(b["segs"]) == 3)
     inode_plan = []
     if mount_ok:
         g_ino = {k: v for k, v in group(behs["inode"]).items() if not has_met(v[0])}
@@ -1088,7 +1112,7 @@ def replay_all(chk, quick, rnd, binary, mount_ok, behs):
             vio_seen[key] = vio_seen.get(key, 0) + 1
             if vio_seen[key] == 1:     # one report (and one replay file) per distinct finding
                 chk.violation(key, text, {"behaviour": b, "seed": seed, "concretisation": conc, "observed": res})
-        mm = None if res.get("own_steps") else model_mismatch(b, res)
+        mm = None if (res.get("own_steps") or b.get("ties")) else model_mismatch(b, res)
         predicted_ok = all(b["ok"].values())
         if mm and not fails:
             (drift if predicted_ok else fixed).append({"behaviour": b, "diff": mm})
@@ -1097,6 +1121,9 @@ def replay_all(chk, quick, rnd, binary, mount_ok, behs):
                         "steps_before_interrupt": [st for st in b["steps"][1:_cut(b) + 1]] if b["crashes"] else None,
                         "spec_final": b["final"], "real_final": res.get("final", res), "trace": res.get("trace")})
     chk.cov["behaviours_by_pass"] = {k: len([1 for t in tasks if t[1]["kind"] == k]) for k in ("time", "volume", "inode")}
+    chk.cov["behaviours_with_tied_segments"] = {
+        "groups_of_12_identical_ranges": len([1 for t in tasks if max(s.get("m", 1) for s in t[1]["segs"]) > 1]),
+        "volume_pass_latest_time_ties": len([1 for t in tasks if t[1].get("ties")])}
     chk.cov["skipped"] = skipped
     chk.cov["findings_by_key"] = vio_seen
     chk.cov["model_predicted_failure_not_reproduced"] = len(fixed)
